@@ -48,7 +48,8 @@ def workdir(pid):
 def run_gen():
     """Regenerate coq/theories/Gen/*.v from /repo's current sources.  Returns (ok, log)."""
     genbin = os.path.join(VERIF, 'bin', 'gen')
-    if not os.path.exists(genbin):
+    srcs = glob.glob(os.path.join(VERIF, 'gen', '*.go'))
+    if not os.path.exists(genbin) or any(os.path.getmtime(f) > os.path.getmtime(genbin) for f in srcs):
         rc, out = build_tools()
         if rc != 0:
             return False, out
@@ -188,7 +189,7 @@ def print_assumptions(module, theorems, wd):
     return rc == 0, {k: v.strip() for k, v in res.items()}, out
 
 
-def coq_eval_cases(model_module, cases, wd, shard=800, extra_imports=(), timeout=900, tag='cases'):
+def coq_eval_cases(model_module, cases, wd, shard=800, extra_imports=(), timeout=900, tag='cases', scope='N_scope'):
     """Evaluate [mismatches] of the model on the cases (Coq terms of type [case]).
     Returns (ok, mismatching global indices, log)."""
     if not cases:
@@ -202,7 +203,7 @@ def coq_eval_cases(model_module, cases, wd, shard=800, extra_imports=(), timeout
             fh.write('From Wesh Require Import %s.\n' % model_module)
             for imp in extra_imports:
                 fh.write(imp + '\n')
-            fh.write('Open Scope N_scope.\n')
+            fh.write('Open Scope %s.\n' % scope)
             fh.write('Definition cases : list case := [\n')
             fh.write(';\n'.join('  (' + c + ')' for c in shards[k]))
             fh.write('\n].\n')
